@@ -6,21 +6,6 @@ use crate::__verif::h::*;
 // C02 / C08  sink contract: replace_html_char
 // ------------------------------------------------------------------------------------------
 
-/// XML 1.0 `Char` production.
-pub(crate) fn xml_char(c: char) -> bool {
-    let u = c as u32;
-    u == 0x9
-        || u == 0xA
-        || u == 0xD
-        || (0x20..=0xD7FF).contains(&u)
-        || (0xE000..=0xFFFD).contains(&u)
-        || (0x10000..=0x10FFFF).contains(&u)
-}
-
-pub(crate) fn markup_significant(c: char) -> bool {
-    matches!(c, '<' | '>' | '&' | '\'' | '"')
-}
-
 /// The entity svgbob must use for a markup-significant character.
 pub(crate) fn entity_of(c: char) -> Option<&'static str> {
     match c {
